@@ -320,12 +320,13 @@ impl Display for Combinations {
 }
 impl Stream for Combinations {
     fn peek(&self) -> Option<NRes<Obj>> {
+        let v = self.1.as_ref()?;
+        // same exhaustion test as next(): choosing more elements than there are yields nothing
+        if v.len() > self.0.len() {
+            return None;
+        }
         Some(Ok(Obj::list(
-            self.1
-                .as_ref()?
-                .iter()
-                .map(|i| self.0[*i].clone())
-                .collect(),
+            v.iter().map(|i| self.0[*i].clone()).collect(),
         )))
     }
     fn clone_box(&self) -> Box<dyn Stream> {
